@@ -30,7 +30,7 @@ import (
 
 // Verdict is the outcome of one isolated execution.
 type Verdict struct {
-	Kind string `json:"kind"` // ok | error | panic | abort | hang | memory | infra
+	Kind string `json:"kind"` // ok | error | panic | abort | hang | memory | race | infra
 	Msg  string `json:"msg,omitempty"`
 	Site string `json:"site,omitempty"` // top-most tabula function on the failing stack
 	Out  string `json:"out,omitempty"`  // entry-specific result (used for baselines)
@@ -38,7 +38,7 @@ type Verdict struct {
 
 // Bad reports whether the verdict violates "returns a value or an error in bounded time and memory".
 func (v Verdict) Bad() bool {
-	return v.Kind == "panic" || v.Kind == "abort" || v.Kind == "hang" || v.Kind == "memory"
+	return v.Kind == "panic" || v.Kind == "abort" || v.Kind == "hang" || v.Kind == "memory" || v.Kind == "race"
 }
 
 // Signature identifies the root cause coarsely: kind + site.
@@ -374,6 +374,9 @@ func (p *Pool) dead(w *worker, why string) Verdict {
 	}
 	st := w.stderr.String()
 	switch {
+	case strings.Contains(st, "WARNING: DATA RACE"):
+		// a worker built with -race and run with GORACE=halt_on_error=1
+		return Verdict{Kind: "race", Msg: clip(st[strings.Index(st, "WARNING: DATA RACE"):], 1200), Site: SiteOf(st)}
 	case strings.Contains(st, "VERIF-MEMORY"):
 		return Verdict{Kind: "memory", Msg: firstLine(st, "VERIF-MEMORY"), Site: SiteOf(st[strings.Index(st, "VERIF-MEMORY"):])}
 	case strings.Contains(st, "fatal error:") || strings.Contains(st, "goroutine stack exceeds") || strings.Contains(st, "panic:"):
